@@ -57,7 +57,7 @@ func genCase(rt *rapid.T) *caseT {
 	}
 	opts := sg.GenOptions{MinLeaves: 1, MaxLeaves: 7, Migration: true, Names: names, Exclude: ex,
 		NoAddedUnique: harness.OpenClass("C20", "unique-on-added-column"), NoNonCanonical: harness.OpenClass("C20", "default-noncanonical-number"),
-		NoUniqueNameClash: harness.OpenClass("C20", "unique-name-collision"), OnExcludeTag: func(cl string) { c.excl = append(c.excl, cl) },
+		NoUniqueNameClash: harness.OpenClass("C20", "unique-name-collision"), NoIgnoredNameAsColumn: harness.OpenClass("C03", "ignored-field-named-like-column"), OnExcludeTag: func(cl string) { c.excl = append(c.excl, cl) },
 		OnExclude: func(*sg.Kind) { c.excl = append(c.excl, "C03:unixtime-uint") }}
 	c.v1, c.pk = sg.GenModel(rt, opts)
 	c.m1 = sg.Build(c.v1)
